@@ -195,8 +195,6 @@ def rows_of_cols(cols, conc, stored):
         ns = by["Nanoseconds"][k] if var else 0
         hit = None
         for r in conc["rows"]:
-            if r["vals"] is None:
-                continue
             if not stored:
                 ok = r["epoch"] == ep and r["ns"] == ns
             elif var:
@@ -210,6 +208,9 @@ def rows_of_cols(cols, conc, stored):
             out.append("?row at %s.%09d is not a row of the file" % (ep, ns))
             continue
         vals = [by[c][k] for c, _ in schema["cols"]]
+        if hit["vals"] is None:
+            out.append("?row %d (%s) cannot be loaded, yet it is there with values %s" % (hit["id"], hit["cls"], vals))
+            continue
         if not all(val_eq(t, x, w) for (_, t), x, w in zip(schema["cols"], vals, hit["vals"])):
             out.append("?row %d loaded with values %s instead of %s" % (hit["id"], vals, hit["vals"]))
             continue
